@@ -15,11 +15,24 @@ func cliCase(c *Case) (*Case, bool) {
 		out.Files[name] = c.Files[key]
 		return name
 	}
+	// the main input of these commands defaults to standard input: a quarter of the cases (chosen from the
+	// case content, so that a case always maps to the same command line) are piped instead of named
+	piped := caseHash(c)%4 == 3
+	main := func(flag, name, key string) []string {
+		if !piped {
+			return []string{flag, put(name, key)}
+		}
+		out.Files["stdin"] = c.Files[key]
+		if caseHash(c)%8 == 3 {
+			return []string{flag, "stdin"}
+		}
+		return nil
+	}
 	var a []string
 	th := strconv.Itoa(max1(o.Threads))
 	switch c.Cmd {
 	case "toma":
-		a = []string{"sam", "toMultiAlign", "-s", put("in.sam", "sam"), "-t", th}
+		a = append([]string{"sam", "toMultiAlign", "-t", th}, main("-s", "in.sam", "sam")...)
 		if o.Start > 0 {
 			a = append(a, "--start", strconv.Itoa(o.Start))
 		}
@@ -33,7 +46,7 @@ func cliCase(c *Case) (*Case, bool) {
 			a = append(a, "--wrap", strconv.Itoa(o.Wrap))
 		}
 	case "topa":
-		a = []string{"sam", "toPairAlign", "-s", put("in.sam", "sam"), "-r", put("ref.fasta", "ref"), "-o", o.OutDir, "-t", th}
+		a = append([]string{"sam", "toPairAlign", "-r", put("ref.fasta", "ref"), "-o", o.OutDir, "-t", th}, main("-s", "in.sam", "sam")...)
 		if o.Start > 0 {
 			a = append(a, "--start", strconv.Itoa(o.Start))
 		}
@@ -50,7 +63,8 @@ func cliCase(c *Case) (*Case, bool) {
 			a = append(a, "--skip-insertions")
 		}
 	case "variants":
-		a = []string{"variants", "--msa", put("msa.fasta", "msa"), "-r", o.RefID, "-a", put("anno."+o.AnnoSuffix, "anno"), "-t", th}
+		piped = o.Stdin // a piped alignment must have the reference first: only when the case says so
+		a = append([]string{"variants", "-r", o.RefID, "-a", put("anno."+o.AnnoSuffix, "anno"), "-t", th}, main("--msa", "msa.fasta", "msa")...)
 		if o.Start > 0 {
 			a = append(a, "--start", strconv.Itoa(o.Start))
 		}
@@ -64,9 +78,9 @@ func cliCase(c *Case) (*Case, bool) {
 			a = append(a, "--append-snps")
 		}
 	case "indels":
-		a = []string{"sam", "indels", "-s", put("in.sam", "sam"), "--threshold", strconv.Itoa(o.MinCount), "--insertions-out", "insertions.txt", "--deletions-out", "deletions.txt"}
+		a = append([]string{"sam", "indels", "--threshold", strconv.Itoa(o.MinCount), "--insertions-out", "insertions.txt", "--deletions-out", "deletions.txt"}, main("-s", "in.sam", "sam")...)
 	case "samvariants":
-		a = []string{"sam", "variants", "-s", put("in.sam", "sam"), "-r", put("ref.fasta", "ref"), "-a", put("anno."+o.AnnoSuffix, "anno"), "-t", th}
+		a = append([]string{"sam", "variants", "-r", put("ref.fasta", "ref"), "-a", put("anno."+o.AnnoSuffix, "anno"), "-t", th}, main("-s", "in.sam", "sam")...)
 		if o.Start > 0 {
 			a = append(a, "--start", strconv.Itoa(o.Start))
 		}
@@ -80,7 +94,7 @@ func cliCase(c *Case) (*Case, bool) {
 			a = append(a, "--append-snps")
 		}
 	case "snps":
-		a = []string{"snps", "-r", put("ref.fasta", "ref"), "-q", put("query.fasta", "query")}
+		a = append([]string{"snps", "-r", put("ref.fasta", "ref")}, main("-q", "query.fasta", "query")...)
 		if o.HardGaps {
 			a = append(a, "--hard-gaps")
 		}
@@ -104,7 +118,7 @@ func cliCase(c *Case) (*Case, bool) {
 			}
 		}
 	case "updownlist":
-		a = []string{"updown", "list", "-r", put("ref.fasta", "ref"), "-q", put("query.fasta", "query")}
+		a = append([]string{"updown", "list", "-r", put("ref.fasta", "ref")}, main("-q", "query.fasta", "query")...)
 	case "topranking":
 		qn, tn := "query.fasta", "target.fasta"
 		// both documented FASTA suffixes, chosen from the case content so that a case always maps to the same line
